@@ -115,6 +115,8 @@ func (in *Input) normalise() {
 	}
 }
 
+var verifSeed int64 = 1
+
 const big256 = "115792089237316195423570985008687907853269984665640564039457584007913129639935" // 2^256-1
 const over256 = "115792089237316195423570985008687907853269984665640564039457584007913129639936"
 
@@ -329,6 +331,14 @@ func (w *World) memoOf(in *Input) string {
 		return ""
 	case "RAW":
 		return w.rawMemo(in.Raw)
+	case "MUT":
+		t := *in
+		t.Mk = "PAYLOAD"
+		t.Raw = ""
+		m, _ := mutateMemo(w.memoOf(&t), in.Aid, in.Op)
+		return m
+	case "RANDOM":
+		return randomBytesOf(in.Op, verifSeed*1000003+in.V, w)
 	}
 	acts := make([]string, len(in.Acts))
 	for i, a := range in.Acts {
